@@ -1,6 +1,7 @@
 ---------------------------- MODULE MetaRoutesMC ----------------------------
 EXTENDS MetaRoutes, Json
 SourcesAll == { [origin |-> "lib", store |-> "simple"], [origin |-> "lib", store |-> "multi"],
-                [origin |-> "foreign", store |-> "simple"], [origin |-> "foreign", store |-> "multi"] }
+                [origin |-> "foreign", store |-> "simple"], [origin |-> "foreign", store |-> "multi"],
+                [origin |-> "lib", store |-> "nested"] }
 Export == Maximal => PrintT(ToJson([origin |-> src.origin, store |-> src.store, prog |-> prog, hist |-> hist, kv0 |-> (IF src.origin = "foreign" /\ src.store = "simple" THEN ForeignKv ELSE LibKv), kvhist |-> kvhist]))
 =============================================================================
